@@ -448,3 +448,110 @@ class _:
             ("name", res.name == s.name),
             ("self-untouched", z3.And(n.self.rows.same(s.rows), n.self.rows.len == s.rows.len, n.self.rows.arr == s.rows.arr, n.self.rows.lo == s.rows.lo)),
         ]
+
+
+def first_contig_after(s, j):
+    """j is the position of the first fragment row after row 0 (or the row count if there is none)"""
+    rows = s.rows
+    return z3.And(1 <= j, j <= rows.len,
+                  forall(lambda k: z3.Implies(z3.And(1 <= k, k < j), rows[k].is_gap)),
+                  z3.Or(j == rows.len, rows[j].is_frag))
+
+
+@contract(f"{M}.overhang_if_start_removed", properties=("C18", "C02"))
+class _:
+    params = {"self": OR}
+    result = INT
+    ghost_locals = {"g_j": INT}
+
+    @staticmethod
+    def requires(o):
+        return [("wf", wf(o.self)), ("nonempty", o.self.rows.len > 0)]
+
+    @staticmethod
+    def modifies(o):
+        return [("alloc",), ("fresh-lists", ROW)]
+
+    @staticmethod
+    def ghost_exit(o, n, res, st):
+        from pyvc.values import Val, INT as _INT
+
+        st.frames[0].vars["g_j"] = Val(_INT, n.raw("_it0").z + 1)
+
+    @staticmethod
+    def ensures(o, n, res):
+        s = o.self
+        j = n.g_j
+        src, lo = s.g_src, s.g_lo
+        # "overhang_if_start_removed == bait.start - start' where start' is the start discard_start would
+        #  leave": start' = scaffold coordinate of the first contig row after the first row
+        return [
+            ("first-contig", first_contig_after(s, j)),
+            ("value", res == s.bait.start - (1 + src.cum(lo + j) - z3.If(s.rows.len == 1, s.g_te, 0))),
+            ("self-untouched", z3.And(n.self.rows.same(s.rows), n.self.rows.arr == s.rows.arr, n.self.rows.lo == s.rows.lo,
+                                      n.self.rows.hi == s.rows.hi, n.self.start == s.start, n.self.end == s.end)),
+        ]
+
+    loops = {
+        0: LoopSpec(
+            kind="for",
+            inv=lambda v, e, o: (lambda s, it: [
+                ("counter", z3.And(0 <= it, it <= s.rows.len - 1)),
+                ("gaps", forall(lambda k: z3.Implies(z3.And(1 <= k, k < it + 1), s.rows[k].is_gap))),
+                ("start", v.start == 1 + s.g_src.cum(s.g_lo + 1 + it) - z3.If(s.rows.len == 1, s.g_te, 0)),
+            ])(o.self, v._it0),
+        )
+    }
+
+
+def last_contig_before(s, j):
+    """j rows from the end: the first fragment row before the last row (or the row count)"""
+    rows = s.rows
+    n = rows.len
+    return z3.And(1 <= j, j <= n,
+                  forall(lambda k: z3.Implies(z3.And(1 <= k, k < j), rows[n - 1 - k].is_gap)),
+                  z3.Or(j == n, rows[n - 1 - j].is_frag))
+
+
+@contract(f"{M}.overhang_if_end_removed", properties=("C18", "C02"))
+class _:
+    params = {"self": OR}
+    result = INT
+    ghost_locals = {"g_j": INT}
+
+    @staticmethod
+    def requires(o):
+        return [("wf", wf(o.self)), ("nonempty", o.self.rows.len > 0)]
+
+    @staticmethod
+    def modifies(o):
+        return [("alloc",), ("fresh-lists", ROW)]
+
+    @staticmethod
+    def ghost_exit(o, n, res, st):
+        from pyvc.values import Val, INT as _INT
+
+        st.frames[0].vars["g_j"] = Val(_INT, n.raw("_it0").z + 1)
+
+    @staticmethod
+    def ensures(o, n, res):
+        s = o.self
+        j = n.g_j
+        src, hi = s.g_src, s.g_hi
+        return [
+            ("last-contig", last_contig_before(s, j)),
+            ("value", res == (src.cum(hi + 1 - j) + z3.If(s.rows.len == 1, s.g_ts, 0)) - s.bait.end),
+            ("self-untouched", z3.And(n.self.rows.same(s.rows), n.self.rows.arr == s.rows.arr, n.self.rows.lo == s.rows.lo,
+                                      n.self.rows.hi == s.rows.hi, n.self.start == s.start, n.self.end == s.end)),
+        ]
+
+    loops = {
+        0: LoopSpec(
+            kind="for",
+            inv=lambda v, e, o: (lambda s, it: [
+                ("counter", z3.And(0 <= it, it <= s.rows.len - 1)),
+                ("gaps", forall(lambda k: z3.Implies(z3.And(1 <= k, k < it + 1), s.rows[s.rows.len - 1 - k].is_gap))),
+                ("end", v.end == s.g_src.cum(s.g_hi - it) + z3.If(s.rows.len == 1, s.g_ts, 0)),
+            ])(o.self, v._it0),
+        )
+    }
